@@ -5,7 +5,7 @@ import ast
 
 from ..astutil import dotted, is_none, norm, strip_docstring, walk_body, walk_local
 from ..dtree import bool_function, decision_tree, leave
-from ..finite import NeedAtom
+from ..finite import k_eq, k_is, k_none, NeedAtom
 from ..flow import Interp, Semantics
 from ..grammar import arg_uses, lift, load
 from ..report import Checker
@@ -82,10 +82,10 @@ def r_step_predicate(ck: Checker, f: Func, info: str, el: str, *, field_expr: st
     """Truth table of the step predicate: instance and (field given => field equal) and (index given => index equal)."""
     rows = bool_function(strip_docstring(f.node.body))
     k_inst = f"isinstance({info}.node, {el}.ast_class)"
-    k_pf_none = f"is(None,{el}.parent_field)"
-    k_f_none = f"is(None,{info}.field)"
+    k_pf_none = k_none(f"{el}.parent_field")
+    k_f_none = k_none(f"{info}.field")
     k_f_eq = "eq(" + ",".join(sorted((f"{el}.parent_field", f"{info}.field.name"))) + ")"
-    k_pi_none = f"is(None,{el}.parent_index)"
+    k_pi_none = k_none(f"{el}.parent_index")
     k_i_eq = "eq(" + ",".join(sorted((f"{el}.parent_index", f"{info}.findex"))) + ")"
     known = {k_inst, k_pf_none, k_f_none, k_f_eq, k_pi_none, k_i_eq}
     bad = []
@@ -270,14 +270,18 @@ def r_anywhere(ck: Checker) -> None:
                          alias_filter=lambda st: True)
     # atoms
     bad = []
-    k_any = "element.anywhere"
-    k_root = f"is(None,c_parent)"
+    k_any = f"{elsv}[0].anywhere"
+    # the parent of the node as reported by the tree (first element of get_parent_info)
+    pinfo = [st for st in body if isinstance(st, ast.Assign) and isinstance(st.value, ast.Call) and isinstance(st.value.func, ast.Attribute)
+             and st.value.func.attr == "get_parent_info" and isinstance(st.targets[0], ast.Tuple)]
+    pvar = norm(pinfo[0].targets[0].elts[0]) if pinfo else "c_parent"
+    k_root = k_none(pvar)
     k_loop = "LOOP:some_ancestor_matches_tail"
     for a, v, lf in rows:
         keys = list(a)
         step = [k for k in keys if k.startswith("_match_node_element(")]
         tail_empty = [k for k in keys if k.startswith("eq(0,len(") or k.startswith("len(")]
-        direct = [k for k in keys if k.startswith(f"_match_node_xpath({treev}, c_parent")]
+        direct = [k for k in keys if k.startswith(f"_match_node_xpath({treev}, {pvar}")]
         if not step:
             bad.append("the current node is not tested against the current step")
             continue
@@ -394,7 +398,7 @@ def r_xp_elements(ck: Checker, modname: str = XP, rule: str = "R-XP-ELEMENTS", m
             what = "every compiled step has a class (the empty elements of '//' are folded until a real step is reached) and carries the field / index of that same step"
             cls_expr = args.get("ast_class")
             states = sem.at.get(id(call), [])
-            ok_cls = isinstance(cls_expr, ast.Name) and states and all((f"is(None,{cls_expr.id})", False) in st for st in states)
+            ok_cls = isinstance(cls_expr, ast.Name) and states and all((k_none(cls_expr.id), False) in st for st in states)
             trio = [norm(args.get(k)) if args.get(k) is not None else None for k in ("parent_field", "parent_index", "ast_class")]
             # the three names come from one tuple unpack
             unpacks = [st for st in walk_body(fn.body) if isinstance(st, ast.Assign) and isinstance(st.targets[0], ast.Tuple)
